@@ -637,7 +637,9 @@ class NetworkTopologyStrategy(ReplicationStrategy):
                         continue
 
                     if host.rack in racks_placed and len(racks_placed) < len(racks_this_dc):
-                        skipped_hosts.append(host)
+                        # a host owning several tokens is met several times: remember it once
+                        if host not in skipped_hosts:
+                            skipped_hosts.append(host)
                         continue
 
                     replicas.append(host)
